@@ -111,6 +111,7 @@ type Machine struct {
 	stdinChunk           int
 	fixedNow             uint64
 	undecidedEq          int
+	builders             map[*value]*value
 	hexModel             bool
 	rawCRC               bool
 	entry                func(g *G)
